@@ -237,15 +237,20 @@ def build_v1(model_dir, truth, table_order=None, aperture_dependent=None, logd_s
 
 
 def build_v2(model_dir, truth, aperture_dependent=None, logd_step=0.02, descending_wav=False,
-             dtype='f8', unit='mJy', with_unc=True, ap_unit='AU'):
+             dtype='f8', unit='mJy', with_unc=True, ap_unit='AU', ap_order=None):
+    """ap_order: the order in which the apertures (and the matching axis of the values) are stored in the cube (default: increasing)"""
     os.makedirs(os.path.join(model_dir, 'convolved'), exist_ok=True)
     if aperture_dependent is None:
         aperture_dependent = truth.apertures is not None
     write_conf(model_dir, aperture_dependent=aperture_dependent, logd_step=logd_step, version=2)
     write_parameters(model_dir, truth.names, truth.params)
     sc = {'mJy': 1.0, 'Jy': 1e-3, 'uJy': 1e3}[unit]        # truth is in mJy; the cube may be stored in another unit (BUNIT)
-    write_cube_file(os.path.join(model_dir, 'flux.fits'), truth.names, truth.wav, truth.apertures,
-                    truth.flux * sc, truth.err * sc if with_unc else None, descending_wav=descending_wav, dtype=dtype, unit=unit, ap_unit=ap_unit)
+    aps_, flux_, err_ = truth.apertures, truth.flux, truth.err
+    if ap_order is not None and truth.apertures is not None:
+        o_ = list(ap_order)
+        aps_, flux_, err_ = np.asarray(truth.apertures)[o_], truth.flux[:, o_, :], truth.err[:, o_, :]
+    write_cube_file(os.path.join(model_dir, 'flux.fits'), truth.names, truth.wav, aps_,
+                    flux_ * sc, err_ * sc if with_unc else None, descending_wav=descending_wav, dtype=dtype, unit=unit, ap_unit=ap_unit)
 
 
 def write_filter_text(path, wav_um, response, central, descending=False):
